@@ -15,10 +15,11 @@ Definition lops09 : list lop :=
                                       all_atoms)) c09_tables)
    ++ concat (map (fun T => map (fun k => LInit k T) init_keys) c09_tables))%list.
 
-(* the inits that are NOT admitted while their group is still pending *)
-Definition private_unsafe : list string :=
-  ["nsf.init"; "covalent_radius.init"; "crystal_structure.init"; "xsf.init_spectral_lines"].
-Definition public_unsafe : list string := ["xsf.init_spectral_lines"].
+(* the inits that are NOT admitted while their group is still pending: none any more (before the repairs
+   706f0ce / 9478875 these lists held nsf.init, covalent_radius.init, crystal_structure.init and
+   xsf.init_spectral_lines for private tables and xsf.init_spectral_lines for the public one) *)
+Definition private_unsafe : list string := [].
+Definition public_unsafe : list string := [].
 
 Definition is_pending (c : centry) : bool := match c with CPending _ => true | _ => false end.
 Definition pending_any (x : gstate) : bool := existsb (fun p => is_pending (snd p)) (cm x).
@@ -83,7 +84,7 @@ Qed.
 Lemma reachable_init : forall g, In g all_groups -> InvG09 g (proj g init_state).
 Proof. intros g Hg. eapply inv_init. apply (CHK09 g Hg). Qed.
 Lemma reachable_counts :
-  map (fun g => length (R09 g)) all_groups = [3; 8; 8; 9; 8; 10; 8; 8]%nat.
+  map (fun g => length (R09 g)) all_groups = [3; 8; 8; 7; 8; 10; 8; 8]%nat.
 Proof. vm_compute. reflexivity. Qed.
 
 (* ------------------------------------------------------------------ events *)
@@ -236,7 +237,8 @@ Proof.
   apply IH; auto.
 Qed.
 
-(* the partial theorem: over the whole C09 alphabet (public reads / hasattr / imports / calculators /
+(* (kept as the general form: with the side-condition lists empty it is the full statement, see
+   histories_canonical below) over the whole C09 alphabet (public reads / hasattr / imports / calculators /
    init(elements), creation of one private table and every init on it and reads of it), as long as no init
    of the lists `public_unsafe` / `private_unsafe` is issued while its group is still pending, every
    observation of the public table is the canonical one *)
@@ -247,7 +249,7 @@ Proof.
   apply (good_init lops09 [P1] safe09 expect09 R09 CHK09).
 Qed.
 
-(* the events of the property's own quantifier, without the refuted one *)
+(* the events of the property's own quantifier (public table only) *)
 Definition public_event (e : event) : bool :=
   match e with
   | Read Pub a n => str_in n known_names
@@ -301,10 +303,10 @@ Proof.
   - split; [apply known_get; auto|reflexivity].
   - split; reflexivity.
   - split; reflexivity.
-  - apply andb_true_iff in H. destruct H as [H1 H2]. split; [apply known_init; [reflexivity|exact H1]|].
-    intros s. apply negb_true_iff in H2. change (str_in k public_unsafe = false) in H2.
+  - apply andb_true_iff in H. destruct H as [H1 _]. split; [apply known_init; [reflexivity|exact H1]|].
+    intros s.
     change (negb (pending_any (p_g (proj (lgroup (LInit k Pub)) s)) && str_in k public_unsafe) = true).
-    rewrite H2. rewrite andb_false_r. reflexivity.
+    change (str_in k public_unsafe) with false. rewrite andb_false_r. reflexivity.
 Qed.
 
 Lemma public_safe_run : forall h s, forallb public_event h = true -> safe_run09 s h.
@@ -313,7 +315,7 @@ Proof.
   simpl in H. apply andb_true_iff in H. destruct H as [H1 H2]. split; [apply public_event_ok; auto|auto].
 Qed.
 
-(* C09, for every history of the property's quantifier except a first-touch `init_spectral_lines(elements)` *)
+(* C09, for every history of the property's quantifier (every init(elements) included) *)
 Theorem public_histories_canonical : forall h, public_lazy h -> all_expected09 h (run init_state h) = true.
 Proof.
   intros h H. apply histories_canonical_partial.
@@ -338,50 +340,44 @@ Proof.
   pose proof (all_expected_nth _ _ _ _ _ A He Ho) as X. simpl in X. apply outcome_eqb_eq in X. exact X.
 Qed.
 
-(* ------------------------------------------------------------------ where the faithful model breaks *)
+(* ------------------------------------------------------------------ full strength: no side condition *)
+Lemma safe09_true : forall t o, safe09 t o = true.
+Proof.
+  intros t o. destruct o as [T a n|T a n|T a n|T a n|k T]; try reflexivity.
+  unfold safe09. destruct T; simpl; rewrite andb_false_r; reflexivity.
+Qed.
+Lemma safe_run09_always : forall h s, safe_run09 s h.
+Proof.
+  induction h as [|e r IH]; intros s; simpl; auto. split; [|apply IH].
+  destruct e; try reflexivity. unfold safe_ev09, safe_at. apply safe09_true.
+Qed.
+
+(* C09 over the whole alphabet: public reads through every representative atom, hasattr probes, imports,
+   calculators, EVERY init(elements) including xsf.init_spectral_lines, creation of a private table, every
+   init on it at any time, reads of it - every observation of the public table is the canonical one *)
+Theorem histories_canonical : forall h,
+  forallb ev_in09 h = true -> all_expected09 h (run init_state h) = true.
+Proof. intros h I. apply histories_canonical_partial; [exact I|apply safe_run09_always]. Qed.
+
+Theorem reads_canonical : forall h i a n o, forallb ev_in09 h = true ->
+  nth_error h i = Some (Read Pub a n) -> nth_error (run init_state h) i = Some o -> o = OSame.
+Proof.
+  intros h i a n o H He Ho. pose proof (histories_canonical h H) as A.
+  pose proof (all_expected_nth _ _ _ _ _ A He Ho) as X. simpl in X. apply outcome_eqb_eq in X. exact X.
+Qed.
+
+(* the histories that broke the public table before the repairs (shortest witnesses of the former
+   `_refuted` theorems) now serve the canonical values *)
 Definition with_p1 (h : list event) : list event := (New P1 :: Init "density.init" P1 :: h)%list.
-
-(* full-strength statement (every init(elements) admitted) is false *)
-Theorem direct_init_refuted :
-  exists h, forallb (fun e => match e with Init k Pub => str_in k init_keys | _ => public_event e end) h = true
-            /\ all_expected09 h (run init_state h) = false.
-Proof.
-  exists [Init "xsf.init_spectral_lines" Pub; Read Pub E1 "K_alpha_units"]. split; vm_compute; reflexivity.
-Qed.
-Theorem direct_init_witness :
+Theorem former_witnesses_canonical :
   run init_state [Init "xsf.init_spectral_lines" Pub; Read Pub E1 "K_alpha_units"; Read Pub E0 "K_beta1_units";
-                  Read Pub E1 "K_alpha"]
-  = [OOk; OErr AttrErr; OErr AttrErr; OSame].
-Proof. vm_compute. reflexivity. Qed.
-
-(* init(private) before the public first touch: the four loaders that break the public table *)
-Theorem private_first_refuted :
-  forall k, In k private_unsafe ->
-  exists a n, forallb ev_in09 (with_p1 [Init k P1; Read Pub a n]) = true
-              /\ all_expected09 (with_p1 [Init k P1; Read Pub a n])
-                                (run init_state (with_p1 [Init k P1; Read Pub a n])) = false.
-Proof.
-  intros k H. simpl in H.
-  destruct H as [H|[H|[H|[H|[]]]]]; subst k.
-  - exists E1, "neutron". split; vm_compute; reflexivity.
-  - exists E1, "covalent_radius". split; vm_compute; reflexivity.
-  - exists E1, "crystal_structure". split; vm_compute; reflexivity.
-  - exists E1, "K_alpha". split; vm_compute; reflexivity.
-Qed.
-Theorem private_first_witnesses :
-  run init_state (with_p1 [Init "nsf.init" P1; Read Pub E1 "neutron"]) = [OOk; OOk; OOk; ODiff]
-  /\ run init_state (with_p1 [Init "covalent_radius.init" P1; Read Pub E1 "covalent_radius"]) = [OOk; OOk; OOk; ODiff]
-  /\ run init_state (with_p1 [Init "crystal_structure.init" P1; Read Pub E1 "crystal_structure"]) = [OOk; OOk; OOk; OErr AttrErr]
-  /\ run init_state (with_p1 [Init "xsf.init_spectral_lines" P1; Read Pub E1 "K_alpha"]) = [OOk; OOk; OOk; OErr AttrErr].
+                  Read Pub E1 "K_alpha"] = [OOk; OSame; OSame; OSame]
+  /\ run init_state (with_p1 [Init "nsf.init" P1; Read Pub E1 "neutron"; Import "fasta"]) = [OOk; OOk; OOk; OSame; OOk]
+  /\ run init_state (with_p1 [Init "covalent_radius.init" P1; Read Pub E1 "covalent_radius"]) = [OOk; OOk; OOk; OSame]
+  /\ run init_state (with_p1 [Init "crystal_structure.init" P1; Read Pub E1 "crystal_structure"]) = [OOk; OOk; OOk; OSame]
+  /\ run init_state (with_p1 [Init "xsf.init_spectral_lines" P1; Read Pub E1 "K_alpha"; Read Pub E1 "K_alpha_units"])
+     = [OOk; OOk; OOk; OSame; OSame].
 Proof. repeat split; vm_compute; reflexivity. Qed.
-
-(* the other private inits are harmless at any time (they are admitted by the partial theorem) *)
-Theorem private_safe_keys : forall k, In k init_keys -> ~ In k private_unsafe -> forall t, safe09 t (LInit k P1) = true.
-Proof.
-  intros k Hk Hn t. unfold safe09.
-  destruct (str_in k private_unsafe) eqn:E; [apply str_in_In in E; contradiction|].
-  rewrite andb_false_r. reflexivity.
-Qed.
 
 (* the scripts only mention names of their own group (the state is kept per group) *)
 Theorem scripts_are_local : scripts_local = true.
